@@ -480,7 +480,7 @@ fn build_ising<C: Cfg>(lat: &Lattice, js: &[f64], gamma: f64, h: f64, cutoff: us
 
 fn ising_scenarios<C: Cfg>(out: &mut Out, gen: &mut SplitMix64, thorough: bool, share: (usize, usize)) {
     let lats = lattices(thorough);
-    let n_scen = (if thorough { 2400 } else { 300 }) * share.0 / share.1;
+    let n_scen = (if thorough { 1900 } else { 300 }) * share.0 / share.1;
     let calls = if thorough { 60 } else { 40 };
     for sc in 0..n_scen {
         // the first scenarios walk through the lattices and the four (heat bath, rvb) combinations
@@ -1058,7 +1058,7 @@ fn build_generic<C: Cfg>(gm: &GModel, seed: u64, loops: bool, hb: bool) -> Optio
 
 fn generic_scenarios<C: Cfg>(out: &mut Out, gen: &mut SplitMix64, thorough: bool, share: (usize, usize)) {
     let models = generic_models(thorough);
-    let n_scen = (if thorough { 1800 } else { 220 }) * share.0 / share.1;
+    let n_scen = (if thorough { 1400 } else { 220 }) * share.0 / share.1;
     let calls = if thorough { 60 } else { 40 };
     for sc in 0..n_scen {
         let gm = models[sc % models.len()].clone();
@@ -1439,7 +1439,7 @@ fn probe_pooled_containers<C: Cfg>(m: &Mgr<C>) -> Option<String> {
 // ---------------------------------------------------------------------------------------------
 fn soak<C: Cfg>(out: &mut Out, gen: &mut SplitMix64, thorough: bool, share: (usize, usize)) {
     let lats = lattices(thorough);
-    let (n_dyadic, n_nd, steps) = if thorough { (48, 48, 20000) } else { (10, 14, 2500) };
+    let (n_dyadic, n_nd, steps) = if thorough { (48, 48, 15000) } else { (10, 14, 2500) };
     let (n_dyadic, n_nd) = (n_dyadic * share.0 / share.1, n_nd * share.0 / share.1);
     let frustrated = ["hex6_chords", "tri_ladder6", "k4", "ring3", "ring5", "torus3x3", "star5"];
     for r in 0..(n_dyadic + n_nd) {
@@ -1551,7 +1551,7 @@ fn soak<C: Cfg>(out: &mut Out, gen: &mut SplitMix64, thorough: bool, share: (usi
     }
     // generic sampler soak
     let models = generic_models(thorough);
-    let (n_runs, steps) = if thorough { (24, 20000) } else { (6, 2500) };
+    let (n_runs, steps) = if thorough { (24, 15000) } else { (6, 2500) };
     let n_runs = n_runs * share.0 / share.1;
     for r in 0..n_runs {
         let gm = models[(r * 3 + 1) % models.len()].clone();
